@@ -215,6 +215,44 @@ class Zygote:
 
 
 # ------------------------------------------------------------------------------ module state (O2)
+def _plain(o: Any, depth: int = 0) -> Any:
+    """Printable snapshot of what a callable carries along (bound arguments, defaults, closure cells): containers and
+    names are written out, anything else is reduced to its type name."""
+    from pacti.iocontract import Var  # noqa: WPS433
+
+    if depth > 4:
+        return "..."
+    if o is None or isinstance(o, (bool, int, float, str)):
+        return o
+    if isinstance(o, Var):
+        return "Var:" + o.name
+    if isinstance(o, (list, tuple)):
+        return [_plain(x, depth + 1) for x in o]
+    if isinstance(o, (set, frozenset)):
+        return sorted(repr(_plain(x, depth + 1)) for x in o)
+    if isinstance(o, dict):
+        return [[_plain(k, depth + 1), _plain(v, depth + 1)] for k, v in o.items()]
+    return "<%s>" % type(o).__name__
+
+
+def _carried(fn: Any) -> Any:
+    import functools  # noqa: WPS433
+
+    if isinstance(fn, functools.partial):
+        return {"partial_args": _plain(fn.args), "partial_keywords": _plain(fn.keywords), "of": _carried(fn.func)}
+    out = {"defaults": _plain(getattr(fn, "__defaults__", None)), "kwdefaults": _plain(getattr(fn, "__kwdefaults__", None))}
+    cells = getattr(fn, "__closure__", None)
+    if cells:
+        vals = []
+        for c in cells:
+            try:
+                vals.append(_plain(c.cell_contents))
+            except ValueError:
+                vals.append("<empty cell>")
+        out["closure"] = vals
+    return out
+
+
 def modstate() -> Dict:
     import pacti.contracts.polyhedral_iocontract as pc  # noqa: WPS433
     import pacti.terms.polyhedra.polyhedra as pl  # noqa: WPS433
@@ -227,6 +265,7 @@ def modstate() -> Dict:
         "contracts.TACTICS_ORDER.id": id(pc.TACTICS_ORDER),
         "TACTICS.keys": list(pl.PolyhedralTermList.TACTICS.keys()),
         "TACTICS.fn": [id(v) for v in pl.PolyhedralTermList.TACTICS.values()],
+        "TACTICS.carried": [_carried(v) for v in pl.PolyhedralTermList.TACTICS.values()],
         "tolerances": [se.float_closeness_relative_tolerance, se.float_closeness_absolute_tolerance],
         "packrat": sm.packrat_enabled(),
     }
